@@ -908,7 +908,7 @@ Section Ops.
     assert (Hg : forall x, getd empty_db x = None) by (intros x; apply mget_empty).
     assert (Hd : forall x, ~ ondisk empty_db x) by (intros x H; apply H; apply mget_empty).
     split.
-    - constructor; cbn; auto. constructor. congruence.
+    - constructor; cbn; auto; try constructor; try congruence.
     - constructor.
       + intros h. unfold cached. rewrite Hg. cbn. tauto.
       + intros d [].
@@ -930,4 +930,77 @@ Section Ops.
     exists st fl stamp nxt, run kids nsize cns ideal ops empty_db = Ok st /\
       Inv fl stamp (fold_left u_step ops (fun _ => 0%nat)) nxt st.
   Proof. intros Hg. eapply run_inv; [apply inv_empty|exact Hg]. Qed.
+
+  Definition u0 : N -> nat := fun _ => 0%nat.
+  Definition u_of (ops : list op) : N -> nat := fold_left u_step ops u0.
+
+  Lemma hist_live ops st r x :
+    good u0 empty_db ops -> run kids nsize cns ideal ops empty_db = Ok st ->
+    (0 < u_of ops r)%nat -> reach kids ext r x -> cached st x \/ ondisk st x.
+  Proof.
+    intros Hg Hr Hu Hx. destruct (all_histories ops Hg) as (st' & fl & stamp & nxt & E & HI).
+    rewrite E in Hr. injection Hr as <-. eapply inv_live_readable; eauto.
+  Qed.
+
+  Lemma hist_disk_closed ops st r x :
+    good u0 empty_db ops -> run kids nsize cns ideal ops empty_db = Ok st ->
+    ondisk st r -> reach kids ext r x -> ondisk st x.
+  Proof.
+    intros Hg Hr Hu Hx. destruct (all_histories ops Hg) as (st' & fl & stamp & nxt & E & HI).
+    rewrite E in Hr. injection Hr as <-. eapply ondisk_reach; eauto.
+  Qed.
+
+  Lemma hist_flushlist ops st :
+    good u0 empty_db ops -> run kids nsize cns ideal ops empty_db = Ok st ->
+    exists fl stamp, linked fl st /\ (forall h, cached st h <-> In h fl) /\ StronglySorted (slt stamp) fl.
+  Proof.
+    intros Hg Hr. destruct (all_histories ops Hg) as (st' & fl & stamp & nxt & E & [Hl HI]).
+    rewrite E in Hr. injection Hr as <-. exists fl, stamp. split; auto. split; [|apply (g_sorted _ _ _ _ _ _ _ _ _ _ _ HI)].
+    intros h. rewrite (g_dom _ _ _ _ _ _ _ _ _ _ _ HI). cbn. tauto.
+  Qed.
+
+  Lemma hist_refcount ops st :
+    good u0 empty_db ops -> run kids nsize cns ideal ops empty_db = Ok st ->
+    exists fl, (forall h, cached st h <-> In h fl) /\ NoDup fl /\
+      forall x, cached st x -> ~ ondisk st x -> gpar st x = (occ kids st fl x + u_of ops x)%nat.
+  Proof.
+    intros Hg Hr. destruct (all_histories ops Hg) as (st' & fl & stamp & nxt & E & [Hl HI]).
+    rewrite E in Hr. injection Hr as <-. exists fl.
+    assert (Hd : forall h, cached st' h <-> In h fl) by (intros h; rewrite (g_dom _ _ _ _ _ _ _ _ _ _ _ HI); cbn; tauto).
+    split; auto. split; [apply (lk_nodup _ _ Hl)|].
+    intros x Hc Hn. rewrite (g_exact _ _ _ _ _ _ _ _ _ _ _ HI x) by (auto; apply Hd; auto). cbn [cnt]. unfold u_of. lia.
+  Qed.
+
+  Lemma hist_size ops st :
+    good u0 empty_db ops -> run kids nsize cns ideal ops empty_db = Ok st ->
+    exists fl, (forall h, cached st h <-> In h fl) /\ NoDup fl /\
+      Size cns st = sumZ (fun h => cost nsize h + cns + xcost st h)%Z fl.
+  Proof.
+    intros Hg Hr. destruct (all_histories ops Hg) as (st' & fl & stamp & nxt & E & HI).
+    rewrite E in Hr. injection Hr as <-. exists fl.
+    split; [|split; [apply (lk_nodup _ _ (proj1 HI))|eapply inv_size_exact; eauto]].
+    intros h. rewrite (g_dom _ _ _ _ _ _ _ _ _ _ _ (proj2 HI)). cbn. tauto.
+  Qed.
+
+  (* a cached node that is not on disk, has no cached referrer and no root reference has count 0:
+     the orphan with a positive count of the leak witness cannot exist off disk *)
+  Lemma hist_collects ops st x :
+    good u0 empty_db ops -> run kids nsize cns ideal ops empty_db = Ok st ->
+    cached st x -> ~ ondisk st x -> u_of ops x = 0%nat ->
+    (forall p, cached st p -> ~ In x (tracked kids st p)) -> gpar st x = 0%nat.
+  Proof.
+    intros Hg Hr Hc Hn Hu Hno. destruct (hist_refcount ops st Hg Hr) as (fl & Hd & _ & Hex).
+    rewrite (Hex x Hc Hn), Hu. rewrite occ_zero; [lia|]. intros p Hp. apply Hno, Hd, Hp.
+  Qed.
+
+  (* after Commit root everything reachable from root is on disk *)
+  Lemma hist_commit_persists ops st root st' x :
+    good u0 empty_db ops -> run kids nsize cns ideal ops empty_db = Ok st ->
+    known st root -> Commit kids nsize ideal st root = Ok st' -> reach kids ext root x -> ondisk st' x.
+  Proof.
+    intros Hg Hr Hk Hc Hx. destruct (all_histories ops Hg) as (st1 & fl & stamp & nxt & E & HI).
+    rewrite E in Hr. injection Hr as <-.
+    destruct (Commit_inv fl stamp (u_of ops) nxt st1 root HI) as (st2 & fl2 & E2 & HI2 & Hroot & _).
+    rewrite E2 in Hc. injection Hc as <-. eapply ondisk_reach; eauto.
+  Qed.
 End Ops.
